@@ -305,12 +305,36 @@ fn main() {
         }
         qx::search(reader, &qx::request(r))
       };
-      // (a) another sort order
-      for _ in 0..2 {
-        let s = rng.pick(&other_sorts[..]).clone();
+      // (a) another sort order. Whether a plan is "another" one is decided on the resolved sort
+      // specifications (empty = [_score desc]; default order desc for _score, asc otherwise),
+      // never on the implementation's plan hash - a hash that forgets a component must not hide
+      // the replay. The third probe flips the direction of one key of the request's own plan.
+      let norm = |v: &Vec<Value>| -> Vec<(String, String)> {
+        if v.is_empty() {
+          return vec![("_score".to_string(), "desc".to_string())];
+        }
+        v.iter()
+          .map(|k| {
+            let f = k["field"].as_str().unwrap_or("").to_string();
+            let o = k["order"].as_str().map(|x| x.to_string()).unwrap_or_else(|| if f == "_score" { "desc".into() } else { "asc".into() });
+            (f, o)
+          })
+          .collect()
+      };
+      let own: Vec<Value> = case.req.get("sort").and_then(|x| x.as_array()).cloned().unwrap_or_default();
+      let own_norm = norm(&own);
+      for probe in 0..3 {
+        let s: Vec<Value> = if probe < 2 {
+          rng.pick(&other_sorts[..]).clone()
+        } else {
+          let mut f = own_norm.clone();
+          let k = rng.below(f.len() as u64) as usize;
+          f[k].1 = if f[k].1 == "desc" { "asc".into() } else { "desc".into() };
+          f.iter().map(|(a, b)| json!({"field": a, "order": b})).collect()
+        };
         let sspecs: Vec<searchlite_core::api::types::SortSpec> = serde_json::from_value(json!(s)).unwrap();
         let h = SortPlan::from_request(&schema, &sspecs).unwrap().hash() as u64;
-        if h == case.plan {
+        if norm(&s) == own_norm {
           continue;
         }
         let res = run(&reader, &case.req, Some(&s), &cur, case.limit);
